@@ -19,107 +19,64 @@ fn k_lang_frag() {
     assert!(encode_language_code("und") == [0x55, 0xc4]);
 }
 
-/// BOUNDED (histories of 3 writes with an optional flush after each; all u64 DTS/PTS, 1-byte payloads): the unmodified
-/// FragmentedMuxer accepts a write iff its DTS is not below the last ACCEPTED one, a rejected write changes nothing observable,
-/// flush returns a segment iff something is queued, empties the queue, counts 1, 2, 3 ... and stamps the first queued DTS.
-#[kani::proof]
-#[kani::unwind(8)]
-fn kb_frag_history() {
-    let cfg = FragmentConfig { width: 16, height: 16, timescale: 90000, fragment_duration_ms: 1000, sps: Vec::new(), pps: Vec::new(),
-                               vps: None, av1_sequence_header: None, vp9_config: None };
-    let mut m = FragmentedMuxer::new(cfg);
-    let mut last_ok: Option<u64> = None;       // model: DTS of the last accepted write
-    let mut queued: usize = 0;                 // model: accepted writes since the last flush
-    let mut first_q: u64 = 0;                  // model: DTS of the first queued write
-    let mut seq: u32 = 1;
-    let mut step = 0;
-    while step < 3 {
-        let dts: u64 = kani::any();
-        let pts: u64 = kani::any();
-        let sync: bool = kani::any();
-        let r = m.write_video(pts, dts, &[0xAB], sync);
-        let expect_ok = match last_ok { None => true, Some(l) => dts >= l };
-        match r {
-            Ok(()) => {
-                assert!(expect_ok);
-                if queued == 0 { first_q = dts; }
-                queued += 1;
-                last_ok = Some(dts);
-                let s = &m.samples[queued - 1];
-                assert!(s.pts == pts && s.dts == dts && s.is_sync == sync && s.data.len() == 1 && s.data[0] == 0xAB);
-            }
-            Err(e) => { assert!(!expect_ok); core::mem::forget(e); }
-        }
-        assert!(m.samples.len() == queued);
-        assert!(m.last_dts == last_ok);
-        assert!(m.sequence_number == seq);
-        let do_flush: bool = kani::any();
-        if do_flush {
-            let seg = m.flush_segment();
-            if queued == 0 { assert!(seg.is_none()); assert!(m.sequence_number == seq); }
-            else {
-                assert!(seg.is_some());
-                assert!(m.base_media_decode_time == first_q);
-                seq += 1;
-                assert!(m.sequence_number == seq);
-                queued = 0;
-            }
-            assert!(m.samples.len() == 0);
-            assert!(m.last_dts == last_ok);
-            core::mem::forget(seg);
-        }
-        step += 1;
-    }
-    core::mem::forget(m);
-}
-
 fn be32_at(b: &[u8], o: usize) -> u32 { ((b[o] as u32) << 24) | ((b[o + 1] as u32) << 16) | ((b[o + 2] as u32) << 8) | (b[o + 3] as u32) }
 fn be64_at(b: &[u8], o: usize) -> u64 { ((be32_at(b, o) as u64) << 32) | (be32_at(b, o + 4) as u64) }
+fn frag_cfg() -> FragmentConfig {
+    FragmentConfig { width: 16, height: 16, timescale: 90000, fragment_duration_ms: 1000, sps: Vec::new(), pps: Vec::new(),
+                     vps: None, av1_sequence_header: None, vp9_config: None }
+}
 
-/// BOUNDED, PUBLIC API ONLY (no private field is read, so the harness survives representation changes): 3 writes with an optional
-/// flush after each. Accept/reject decisions follow the last ACCEPTED DTS; a flush yields a segment iff something was queued; the
-/// segment's mfhd sequence numbers count 1, 2, 3 ... and its tfdt is the DTS of the first write queued since the previous flush.
+/// BOUNDED, PUBLIC API ONLY (3 writes, all u64 DTS): a write is accepted iff its DTS is not below the last ACCEPTED one - a rejected
+/// write must not move the reference. No private field is read, so the harness survives representation changes.
 #[kani::proof]
-#[kani::unwind(8)]
-fn kb_frag_api() {
-    let cfg = FragmentConfig { width: 16, height: 16, timescale: 90000, fragment_duration_ms: 1000, sps: Vec::new(), pps: Vec::new(),
-                               vps: None, av1_sequence_header: None, vp9_config: None };
-    let mut m = FragmentedMuxer::new(cfg);
+#[kani::unwind(5)]
+fn kb_frag_accept() {
+    let mut m = FragmentedMuxer::new(frag_cfg());
     let mut last_ok: Option<u64> = None;
-    let mut queued: usize = 0;
-    let mut first_q: u64 = 0;
-    let mut seq: u32 = 1;
     let mut step = 0;
     while step < 3 {
         let dts: u64 = kani::any();
         let r = m.write_video(dts, dts, &[0xAB], step == 0);
         let expect_ok = match last_ok { None => true, Some(l) => dts >= l };
         match r {
-            Ok(()) => { assert!(expect_ok); if queued == 0 { first_q = dts; } queued += 1; last_ok = Some(dts); }
+            Ok(()) => { assert!(expect_ok); last_ok = Some(dts); }
             Err(e) => { assert!(!expect_ok); core::mem::forget(e); }
         }
-        let do_flush: bool = kani::any();
-        if do_flush {
-            match m.flush_segment() {
-                None => assert!(queued == 0),
-                Some(seg) => {
-                    assert!(queued > 0);
-                    assert!(seg.len() >= 64 && seg[4] == b'm' && seg[5] == b'o' && seg[6] == b'o' && seg[7] == b'f');
-                    assert!(be32_at(&seg, 8) == 16 && seg[12] == b'm' && seg[13] == b'f' && seg[14] == b'h' && seg[15] == b'd');
-                    assert!(be32_at(&seg, 20) == seq);
-                    let tfhd_size = be32_at(&seg, 32) as usize;
-                    assert!(tfhd_size >= 16 && tfhd_size <= 32);
-                    let o = 32 + tfhd_size;
-                    assert!(seg[o + 4] == b't' && seg[o + 5] == b'f' && seg[o + 6] == b'd' && seg[o + 7] == b't');
-                    assert!(seg[o + 8] == 1);
-                    assert!(be64_at(&seg, o + 12) == first_q);
-                    seq += 1;
-                    queued = 0;
-                    core::mem::forget(seg);
-                }
-            }
-        }
         step += 1;
+    }
+    core::mem::forget(m);
+}
+
+fn check_segment(seg: &[u8], seq: u32, first_dts: u64) {
+    assert!(seg.len() >= 64 && seg[4] == b'm' && seg[5] == b'o' && seg[6] == b'o' && seg[7] == b'f');
+    assert!(be32_at(seg, 8) == 16 && seg[12] == b'm' && seg[13] == b'f' && seg[14] == b'h' && seg[15] == b'd');
+    assert!(be32_at(seg, 20) == seq);
+    let tfhd_size = be32_at(seg, 32) as usize;
+    assert!(tfhd_size >= 16 && tfhd_size <= 32);
+    let o = 32 + tfhd_size;
+    assert!(seg[o + 4] == b't' && seg[o + 5] == b'f' && seg[o + 6] == b'd' && seg[o + 7] == b't');
+    assert!(seg[o + 8] == 1);
+    assert!(be64_at(seg, o + 12) == first_dts);
+}
+
+/// BOUNDED, PUBLIC API ONLY (two one-sample fragments, all u64 DTS): flush yields a segment iff something is queued, numbers the
+/// segments 1, 2 and stamps each with the DTS of its first sample; a write across the flush is still checked against the last accepted DTS.
+#[kani::proof]
+#[kani::unwind(4)]
+fn kb_frag_flush() {
+    let mut m = FragmentedMuxer::new(frag_cfg());
+    assert!(m.flush_segment().is_none());
+    let d0: u64 = kani::any();
+    assert!(m.write_video(d0, d0, &[0xAB], true).is_ok());
+    match m.flush_segment() { None => assert!(false), Some(seg) => { check_segment(&seg, 1, d0); core::mem::forget(seg); } }
+    assert!(m.flush_segment().is_none());
+    let d1: u64 = kani::any();
+    match m.write_video(d1, d1, &[0xCD], false) {
+        Ok(()) => {
+            assert!(d1 >= d0);
+            match m.flush_segment() { None => assert!(false), Some(seg) => { check_segment(&seg, 2, d1); core::mem::forget(seg); } }
+        }
+        Err(e) => { assert!(d1 < d0); core::mem::forget(e); assert!(m.flush_segment().is_none()); }
     }
     core::mem::forget(m);
 }
